@@ -40,6 +40,38 @@ class Finding:
         }
 
 
+class Shared:
+    """A view of a Ctx for running another property's sub-check under this property's rule ids.
+
+    mapping: foreign rule id -> own rule id (obligations of other foreign rules are skipped);
+    only: optional predicate on the instance text; consequence: replaces the foreign consequence text."""
+
+    def __init__(self, ctx, mapping, only=None, consequence=None):
+        self._ctx, self._map, self._only, self._cons = ctx, mapping, only, consequence
+
+    def rule(self, *a, **k):
+        pass
+
+    def ob(self, rid, instance, ok, *a, **k):
+        if rid not in self._map or (self._only is not None and not self._only(instance)):
+            return ok
+        if self._cons and "consequence" in k:
+            k["consequence"] = self._cons
+        return self._ctx.ob(self._map[rid], instance, ok, *a, **k)
+
+    def note(self, *a, **k):
+        pass
+
+    def assume(self, *a, **k):
+        pass
+
+    def decline(self, *a, **k):
+        pass
+
+    def __getattr__(self, name):
+        return getattr(self._ctx, name)
+
+
 class Ctx:
     """One check run of one property."""
 
